@@ -935,6 +935,8 @@ func genC01(c *Ctx) {
 		deep("["+rep("[", 6000)+rep("]", 6000)+","+rep("[", 6000)+rep("]", 6000)+","+rep("[]", 6000)[1:11999]+"]", "siblings 6001 deep, 24000 brackets", th)
 		deep(`{"a":`+rep("[", 9999)+rep("]", 9999)+`,"b":`+rep("[", 9998)+"0"+rep("]", 9998)+`}`, "object with two deep members, 10000", th)
 		deep(`{"a":`+rep("[", 9999)+rep("]", 9999)+`,"b":`+rep("[", 10000)+rep("]", 10000)+`}`, "object with second member too deep, 10001", true)
+		deep("["+rep("{},", 10001)+"{}]", "10002 sibling objects, depth 2", true)
+		deep(`{"a":[`+rep("[],", 10001)+`[]],"b":[[[]]]}`, "10002 sibling arrays, depth 4", true)
 		// an enforcing version: too deep and an unsafe number, within the limit and an unsafe number
 		deep(rep("[", 10001)+"1.5"+rep("]", 10001), "depth 10001 and a fraction", true)
 		deep(rep("[", 10000)+"1.5"+rep("]", 10000), "depth 10000 and a fraction", false)
